@@ -423,6 +423,11 @@ class C09Antenna(Machine):
             raise Violation("C09:mc-truth", "is_hit_mc_truth is true while is_hit is false")
         if not self._noisy() and self.cfg["kind"] != "system" and bool(mc) != bool(hit):
             raise Violation("C09:mc-truth", "noiseless antenna: is_hit_mc_truth != is_hit")
+        # a pure query: asking again (now that waveforms / is_hit have been asked) gives the same answer
+        st, mc2 = self.sut(lambda: self.obj.is_hit_mc_truth, where="is_hit_mc_truth")
+        if bool(mc2) != bool(mc):
+            raise Violation("C09:mc-truth-order", "is_hit_mc_truth was %s when asked first and %s after "
+                            "is_hit had been asked (nothing received in between)" % (bool(mc), bool(mc2)))
         return ["q_mc", bool(mc)]
 
     def _op_q_full(self, op):
